@@ -95,6 +95,7 @@ func C07(c *core.Ctx) {
 	})
 	c.Import(C17, "R7.4", "the Content Store capacity set by management is not bounded before the int conversion: a negative capacity makes the eviction loop empty the store and dereference a nil queue front", 1, func(k string) bool { return strings.HasPrefix(k, "R17.3:capacity-upper-bound") })
 	sl := &core.Slicer{P: p}
+	c07Count(c)
 
 	isCsEntryLoad := func(v ssa.Value) (ssa.Value, bool) { // node.csEntry
 		b, ok := core.FieldOf(v, "csEntry")
@@ -730,6 +731,55 @@ func C07(c *core.Ctx) {
 		c.Floor("R7.6", "table settings changed at run time", len(runtimeSet), 1)
 	}
 
+}
+
+// c07Count — R7.9 "at most the configured capacity of packets cached", as the management
+// goroutine observes it: the CS entry count that CsSize hands out is read atomically (the
+// forwarding thread writes it), and InsertData does not publish a count that includes the
+// new entry before the eviction has run — no update of the counter from which the call of
+// EvictEntries is still reachable.
+func c07Count(c *core.Ctx) {
+	p := c.P
+	if gs := c.Fn("R7.9", "fw/table", "PitCsTree", "CsSize"); gs != nil {
+		atomicRead := false
+		core.Instrs(gs, func(in ssa.Instruction) {
+			if r, ok := in.(*ssa.Return); ok && len(r.Results) == 1 {
+				if cl, isCall := core.StripConv(r.Results[0]).(*ssa.Call); isCall {
+					if cal := cl.Call.StaticCallee(); cal != nil && cal.Pkg != nil && cal.Pkg.Pkg.Path() == "sync/atomic" {
+						atomicRead = true
+					}
+				}
+			}
+		})
+		_, held := core.EntryLocks(p, core.ModPath+"/fw/table")
+		locked := false
+		core.Instrs(gs, func(in ssa.Instruction) {
+			if _, ok := in.(*ssa.Return); ok && len(held[gs][in]) > 0 {
+				locked = true
+			}
+		})
+		c.Decide(atomicRead || locked, "R7.9", "cs-count-read-atomically", p.Pos(gs.Pos()), "CsSize reads the entry count atomically (or under a lock)", "CsSize returns a plain counter that the forwarding thread writes while the management goroutine (cs/info, forwarder status) reads it: a data race, and the reader can see the count of an insertion that is still in progress")
+	}
+	if ins := c.Fn("R7.9", "fw/table", "PitCsTree", "InsertData"); ins != nil {
+		var evicts, updates []ssa.Instruction
+		core.Instrs(ins, func(in ssa.Instruction) {
+			if ci, ok := in.(ssa.CallInstruction); ok && ci.Common().IsInvoke() && ci.Common().Method.Name() == "EvictEntries" {
+				evicts = append(evicts, in)
+			}
+			if isIncDec(in, "nCsEntries", +1) || isCountSync(in, "nCsEntries", "csMap") {
+				updates = append(updates, in)
+			}
+		})
+		bad := ""
+		for _, u := range updates {
+			for _, e := range evicts {
+				if core.ReachableFrom(core.After(u), e) {
+					bad = c.Pos(u)
+				}
+			}
+		}
+		c.Decide(len(evicts) > 0 && len(updates) > 0 && bad == "", "R7.9", "cs-count-published-after-eviction", p.Pos(ins.Pos()), fmt.Sprintf("%d updates of the CS entry count in InsertData, none before the eviction", len(updates)), "InsertData counts the new entry ("+bad+") before EvictEntries has removed the victim: while the eviction waits (for the capacity lock held by a concurrent capacity change) management is told capacity+1 packets are cached")
+	}
 }
 
 // durationScalings: every multiplication, in fn, of a 64-bit number by a Duration unit
